@@ -4,6 +4,7 @@ pub mod consts;
 pub mod curve;
 pub mod fld;
 pub mod group;
+pub mod poly;
 pub mod selfcheck;
 pub mod spec;
 
